@@ -1,6 +1,7 @@
 package c20
 
 import (
+	"bufio"
 	"bytes"
 	"context"
 	"fmt"
@@ -58,10 +59,108 @@ func ctxWriter(r *core.Run) {
 		rec(append(append([]int{}, seq...), 1))
 	}
 	rec(nil)
+	// bulk transfers: data handed to the writer through the copy functions of the standard
+	// library (which look for io.ReaderFrom / io.StringWriter on the destination) in N chunks;
+	// the sink cancels the context during its j-th write. No later chunk may reach the sink,
+	// whatever interface carried the data.
+	for _, api := range []string{"write-loop", "io.Copy", "io.CopyBuffer", "io.CopyN", "io.WriteString", "bufio.Flush", "fmt.Fprint"} {
+		for chunks := 1; chunks <= 5; chunks++ {
+			for j := 1; j <= chunks; j++ {
+				ctx, cancel := context.WithCancel(context.Background())
+				sink := &cancellingSink{cancel: cancel, at: j}
+				w := iox.CtxWriter{Writer: sink, Ctx: ctx}
+				const chunk = 7
+				data := bytes.Repeat([]byte("abcdefg"), chunks)
+				var err error
+				switch api {
+				case "write-loop":
+					for i := 0; i < chunks && err == nil; i++ {
+						_, err = w.Write(data[i*chunk : (i+1)*chunk])
+					}
+				case "io.Copy":
+					_, err = io.Copy(w, &chunkReader{data: data, chunk: chunk})
+				case "io.CopyBuffer":
+					_, err = io.CopyBuffer(w, &chunkReader{data: data, chunk: chunk}, make([]byte, chunk))
+				case "io.CopyN":
+					_, err = io.CopyN(w, &chunkReader{data: data, chunk: chunk}, int64(len(data)))
+				case "io.WriteString":
+					for i := 0; i < chunks && err == nil; i++ {
+						_, err = io.WriteString(w, string(data[i*chunk:(i+1)*chunk]))
+					}
+				case "bufio.Flush":
+					bw := bufio.NewWriterSize(w, 16) // smaller than the data: ReadFrom/flush paths
+					_, err = bw.ReadFrom(&chunkReader{data: data, chunk: chunk})
+					if err == nil {
+						err = bw.Flush()
+					}
+				case "fmt.Fprint":
+					for i := 0; i < chunks && err == nil; i++ {
+						_, err = fmt.Fprint(w, string(data[i*chunk:(i+1)*chunk]))
+					}
+				}
+				cancel()
+				n++
+				if sink.after > 0 {
+					r.Violate("ctxwriter:bulk-write-after-cancel:"+api, fmt.Sprintf("%s of %d chunks, context cancelled during sink write %d: %d more writes (%d bytes) reached the sink, err=%v", api, chunks, j, sink.after, sink.bytesAfter, err), map[string]any{"kind": "ctxwriter-bulk", "api": api, "chunks": chunks, "cancel_at": j})
+				} else if sink.writes > j {
+					r.Violate("ctxwriter:bulk-count:"+api, fmt.Sprintf("%s of %d chunks cancel at %d: sink saw %d writes", api, chunks, j, sink.writes), map[string]any{"kind": "ctxwriter-bulk", "api": api, "chunks": chunks, "cancel_at": j})
+				} else if err == nil && sink.total < len(data) {
+					r.Violate("ctxwriter:bulk-silent-loss:"+api, fmt.Sprintf("%s of %d chunks cancel at %d: %d of %d bytes reached the sink but no error was returned", api, chunks, j, sink.total, len(data)), map[string]any{"kind": "ctxwriter-bulk", "api": api, "chunks": chunks, "cancel_at": j})
+				}
+			}
+		}
+	}
 	r.Eval(n)
 	r.AddTransitions(n)
 	r.Nontrivial("ctxwriter")
 	r.Section("ctxwriter")
+}
+
+// cancellingSink cancels the context inside its at-th Write and counts what still arrives.
+type cancellingSink struct {
+	cancel     context.CancelFunc
+	at         int
+	writes     int
+	total      int
+	cancelled  bool
+	after      int
+	bytesAfter int
+}
+
+func (s *cancellingSink) Write(p []byte) (int, error) {
+	if s.cancelled {
+		s.after++
+		s.bytesAfter += len(p)
+	}
+	s.writes++
+	s.total += len(p)
+	if s.writes == s.at {
+		s.cancel()
+		s.cancelled = true
+	}
+	return len(p), nil
+}
+
+// chunkReader hands out its data chunk by chunk and implements nothing but io.Reader.
+type chunkReader struct {
+	data  []byte
+	chunk int
+}
+
+func (c *chunkReader) Read(p []byte) (int, error) {
+	if len(c.data) == 0 {
+		return 0, io.EOF
+	}
+	n := c.chunk
+	if n > len(c.data) {
+		n = len(c.data)
+	}
+	if n > len(p) {
+		n = len(p)
+	}
+	copy(p, c.data[:n])
+	c.data = c.data[n:]
+	return n, nil
 }
 
 // hookRS is a harness io.ReadSeeker+Closer whose calls are environment points: the
